@@ -451,7 +451,11 @@ func parentMain(p *Property, tier string, seed int64, only string) int {
 		go func(j batchJob) {
 			defer wg.Done()
 			defer func() { <-sem }()
+			tb := time.Now()
 			rs := runBatch(p, tier, seed, scratch, fmt.Sprintf("b%d", j.idx), j.cases, 0)
+			if d := time.Since(tb); d > 20*time.Second && os.Getenv("VERIF_DEBUG") != "" {
+				fmt.Fprintf(os.Stderr, "slow batch b%d (%v): %s .. %s\n", j.idx, d.Round(time.Second), j.cases[0].ID, j.cases[len(j.cases)-1].ID)
+			}
 			rmu.Lock()
 			for _, r := range rs {
 				results[r.CaseID] = r
@@ -578,6 +582,15 @@ func confirmAlone(p *Property, tier string, seed int64, scratch, tag string, c C
 	rs, openID, to2, exitErr, logFile := runChild(p, tier, seed, scratch, tag+"-confirm-"+shortHash(c.ID), []Case{c}, to)
 	if len(rs) == 1 && exitErr == nil {
 		r := rs[0]
+		if timedOut {
+			// keep the goroutine dump of the first (timed out) attempt for diagnosis
+			dir := filepath.Join(verifRoot(), "replays")
+			_ = os.MkdirAll(dir, 0o775)
+			if b, err := os.ReadFile(firstLog); err == nil {
+				_ = os.WriteFile(filepath.Join(dir, fmt.Sprintf("watchdog-%s-%s.log", p.ID, shortHash(c.ID))), b, 0o664)
+			}
+			r.Count("watchdog_fired_then_passed_alone", 1)
+		}
 		if r.Verdict == Held {
 			// passes alone: the first failure is not reproducible in isolation
 			if timedOut {
